@@ -1872,11 +1872,15 @@ where
         if !node.order.is_empty() {
             slice = self.read.slice_unchecked(start, self.read.index());
             let lv = LazyValue::new(slice.into(), status.into());
+            // a duplicate key in the document reaches the same tree node again: the first member wins (as
+            // in `get`) and every path is counted once, otherwise `remain` hits zero too early and an
+            // enclosing container is cut short
             for p in &node.order {
-                out[*p] = Some(lv.clone());
+                if out[*p].is_none() {
+                    out[*p] = Some(lv.clone());
+                    *remain -= 1;
+                }
             }
-            // a duplicate key in the document reaches the same tree node again: do not count its paths twice
-            *remain = remain.saturating_sub(node.order.len());
         }
         Ok(())
     }
